@@ -230,7 +230,9 @@ func nilTests(flow map[ssa.Value]bool) []nilTest {
 }
 
 // neverNilError: the value is an error that is non-nil by construction.
-func neverNilError(c *Ctx, v ssa.Value) bool {
+func neverNilError(c *Ctx, v ssa.Value) bool { return neverNilErrorD(c, v, 0) }
+
+func neverNilErrorD(c *Ctx, v ssa.Value, depth int) bool {
 	switch v := v.(type) {
 	case *ssa.MakeInterface:
 		// a concrete error value boxed into the interface; a nil pointer of a
@@ -241,6 +243,45 @@ func neverNilError(c *Ctx, v ssa.Value) bool {
 		switch calleeName(v) {
 		case "errors.New", "fmt.Errorf":
 			return true
+		}
+		// an error constructor of the library: every return of it is non-nil by construction
+		if callee := staticCallee(v); callee != nil && (callee.Pkg == c.SLib || callee.Pkg == c.SCLI) && callee.Blocks != nil && depth < 3 {
+			res := callee.Signature.Results()
+			if res.Len() != 1 || !isErrorType(res.At(0).Type()) {
+				return false
+			}
+			n := 0
+			for _, b := range callee.Blocks {
+				if ret := blockReturn(b); ret != nil {
+					n++
+					if !neverNilErrorD(c, retResults(ret)[0], depth+1) {
+						return false
+					}
+				}
+			}
+			return n > 0
+		}
+	case *ssa.UnOp:
+		// a package-level error value that is only ever given a fresh error at initialisation
+		if g, ok := v.X.(*ssa.Global); ok && v.Op == token.MUL && g.Pkg == c.SLib && c.globalNeverWritten(g) && depth < 3 {
+			if init := c.SLib.Func("init"); init != nil {
+				for _, b := range init.Blocks {
+					for _, in := range b.Instrs {
+						if st, ok := in.(*ssa.Store); ok && st.Addr == ssa.Value(g) {
+							return neverNilErrorD(c, st.Val, depth+1)
+						}
+					}
+				}
+			}
+		}
+	case *ssa.Phi:
+		if depth < 3 {
+			for _, e := range v.Edges {
+				if !neverNilErrorD(c, e, depth+1) {
+					return false
+				}
+			}
+			return len(v.Edges) > 0
 		}
 	}
 	return false
@@ -595,6 +636,15 @@ func checkNonNilEdge(c *Ctx, fn *ssa.Function, s errSite, flow map[ssa.Value]boo
 				}
 			}
 			if st, ok := in.(*ssa.Store); ok && isLatchFn {
+				// a function literal records the failure in a captured variable
+				if _, ok := st.Addr.(*ssa.FreeVar); ok {
+					if bv, ok := constBool(st.Val); ok && bv {
+						latched = true
+					}
+					if isErrorType(st.Val.Type()) && (flow[st.Val] || neverNilError(c, st.Val)) {
+						latched = true
+					}
+				}
 				if fa, ok := st.Addr.(*ssa.FieldAddr); ok {
 					if bv, ok := constBool(st.Val); ok && bv && len(fn.Params) > 0 && fa.X == fn.Params[0] {
 						latched = true
@@ -809,6 +859,148 @@ func ruleLatch(c *Ctx) *RuleResult {
 			}
 		}
 	}
+	afterSort := func(fn *ssa.Function, call *ssa.Call, key, pos string, isErr bool, lname string, isLatchLoad func(ssa.Value) bool) {
+				// Walk every path from the sort to a return, carrying the set of
+				// values that hold this object's latch (a load of the field, a phi
+				// fed by one on the edge taken). A branch on such a value is the
+				// test; a return reached without one loses the failure.
+				type testEdge struct {
+					blk     *ssa.BasicBlock
+					latched int
+					val     ssa.Value
+				}
+				var tests []testEdge
+				condOf := func(bb *ssa.BasicBlock, held map[ssa.Value]bool) (ssa.Value, int, bool) {
+					ifi := blockIf(bb)
+					if ifi == nil {
+						return nil, 0, false
+					}
+					cond := ifi.Cond
+					neg := false
+					if u, ok := cond.(*ssa.UnOp); ok && u.Op == token.NOT {
+						cond, neg = u.X, true
+					}
+					if bo, ok := cond.(*ssa.BinOp); ok && isErr && (bo.Op == token.NEQ || bo.Op == token.EQL) && isNilConst(bo.Y) {
+						cond = bo.X
+						if bo.Op == token.EQL {
+							neg = !neg
+						}
+					} else if isErr {
+						return nil, 0, false
+					}
+					if !held[cond] {
+						return nil, 0, false
+					}
+					idx := 0
+					if neg {
+						idx = 1
+					}
+					return cond, idx, true
+				}
+				problem := ""
+				memo := map[string]bool{}
+				steps := 0
+				var walk func(bb *ssa.BasicBlock, from *ssa.BasicBlock, start int, held map[ssa.Value]bool)
+				walk = func(bb *ssa.BasicBlock, from *ssa.BasicBlock, start int, held map[ssa.Value]bool) {
+					if problem != "" {
+						return
+					}
+					steps++
+					if steps > 20000 {
+						problem = "too many paths after the sort to follow the failure flag"
+						return
+					}
+					h2 := map[ssa.Value]bool{}
+					for v := range held {
+						h2[v] = true
+					}
+					if from != nil {
+						pi := -1
+						for i, pb := range bb.Preds {
+							if pb == from {
+								pi = i
+							}
+						}
+						for _, in := range bb.Instrs {
+							ph, ok := in.(*ssa.Phi)
+							if !ok {
+								break
+							}
+							delete(h2, ph)
+							if pi >= 0 && held[ph.Edges[pi]] {
+								h2[ph] = true
+							}
+						}
+					}
+					for _, in := range bb.Instrs[start:] {
+						if v, ok := in.(ssa.Value); ok && isLatchLoad(v) {
+							h2[v] = true
+						}
+					}
+					var ks []string
+					for v := range h2 {
+						ks = append(ks, v.Name())
+					}
+					sort.Strings(ks)
+					mk := fmt.Sprint(bb.Index, start, ks)
+					if memo[mk] {
+						return
+					}
+					memo[mk] = true
+					if cv, idx, ok := condOf(bb, h2); ok {
+						dup := false
+						for _, t := range tests {
+							if t.blk == bb {
+								dup = true
+							}
+						}
+						if !dup {
+							tests = append(tests, testEdge{bb, idx, cv})
+						}
+						return
+					}
+					if ret := blockReturn(bb); ret != nil {
+						problem = "the return at " + c.pos(ret.Pos()) + " is reachable after the sort without testing the failure flag"
+						return
+					}
+					for _, sb := range bb.Succs {
+						walk(sb, bb, 0, h2)
+					}
+				}
+				ci := 0
+				for i, in := range call.Block().Instrs {
+					if in == call {
+						ci = i + 1
+					}
+				}
+				walk(call.Block(), nil, ci, map[ssa.Value]bool{})
+				if problem == "" && len(tests) == 0 {
+					r.viol(key, pos, fname(fn), "the failure flag set by "+lname+" is never tested after the sort: evaluation errors inside the comparison are lost")
+					return
+				}
+				if problem == "" {
+					// latched edge must return a non-nil error on every path
+					errSlot := errIndex(fn.Signature)
+					for _, t := range tests {
+						T := t.blk.Succs[t.latched]
+						for bb := range reachableFrom(T, nil) {
+							if ret := blockReturn(bb); ret != nil {
+								if errSlot >= 0 && isErr && (retResults(ret)[errSlot] == t.val || isLatchLoad(retResults(ret)[errSlot])) {
+									continue // returns the latched error itself, non-nil on this edge
+								}
+								if errSlot < 0 || !neverNilError(c, retResults(ret)[errSlot]) {
+									problem = "the latched edge reaches the return at " + c.pos(ret.Pos()) + " which does not carry a fresh error"
+								}
+							}
+						}
+					}
+				}
+				if problem == "" {
+					r.ok(key, pos, fname(fn), "flag tested right after the sort; latched edge returns a fresh error; no return bypasses the test")
+				} else {
+					r.viol(key, pos, fname(fn), problem)
+				}
+	}
 	for _, fn := range allFuncs(c.SLib) {
 		ord := 0
 		for _, b := range fn.Blocks {
@@ -842,87 +1034,90 @@ func ruleLatch(c *Ctx) *RuleResult {
 				ord++
 				key := fmt.Sprintf("%s|%s#%d", fname(fn), l.T.Obj().Name(), ord)
 				pos := c.pos(call.Pos())
-				// find the test of the latch on the sorted object
-				var testBlk *ssa.BasicBlock
-				var latchLoad ssa.Value
-				trueIdx := 0
-				for _, bb := range fn.Blocks {
-					ifi := blockIf(bb)
-					if ifi == nil {
-						continue
-					}
-					cond := ifi.Cond
-					neg := false
-					if u, ok := cond.(*ssa.UnOp); ok && u.Op == token.NOT {
-						cond, neg = u.X, true
-					}
-					if bo, ok := cond.(*ssa.BinOp); ok && l.isErr && (bo.Op == token.NEQ || bo.Op == token.EQL) && isNilConst(bo.Y) {
-						cond = bo.X
-						if bo.Op == token.EQL {
-							neg = !neg
-						}
-					} else if l.isErr {
-						continue
-					}
-					ld, ok := cond.(*ssa.UnOp)
+				afterSort(fn, call, key, pos, l.isErr, l.T.Obj().Name()+".Less", func(v ssa.Value) bool {
+					ld, ok := v.(*ssa.UnOp)
 					if !ok || ld.Op != token.MUL {
-						continue
+						return false
 					}
 					fa, ok := ld.X.(*ssa.FieldAddr)
-					if !ok || fa.Field != l.field || fa.X != mi.X {
-						continue
-					}
-					testBlk = bb
-					latchLoad = ld
-					trueIdx = 0
-					if neg {
-						trueIdx = 1
-					}
-				}
-				if testBlk == nil {
-					r.viol(key, pos, fname(fn), "the failure flag set by "+l.T.Obj().Name()+".Less is never tested after the sort: evaluation errors inside the comparison are lost")
+					return ok && fa.Field == l.field && fa.X == mi.X
+				})
+			}
+		}
+	}
+	// function-literal comparisons: sort.Slice / sort.SliceStable(s, func(i, j int) bool {...})
+	// whose literal records a failure in a captured variable
+	for _, fn := range allFuncs(c.SLib) {
+		ord := 0
+		for _, b := range fn.Blocks {
+			for _, in := range b.Instrs {
+				call, ok := in.(*ssa.Call)
+				if !ok {
 					continue
 				}
-				// no success return reachable from the call without passing the test
-				problem := ""
-				seen := map[*ssa.BasicBlock]bool{}
-				var walk func(bb *ssa.BasicBlock, first bool)
-				walk = func(bb *ssa.BasicBlock, first bool) {
-					if problem != "" || (!first && seen[bb]) {
-						return
-					}
-					seen[bb] = true
-					if bb == testBlk {
-						return
-					}
-					if ret := blockReturn(bb); ret != nil {
-						problem = "the return at " + c.pos(ret.Pos()) + " is reachable after the sort without testing the failure flag"
-						return
-					}
-					for _, s := range bb.Succs {
-						walk(s, false)
-					}
+				if n := calleeName(call); n != "sort.Slice" && n != "sort.SliceStable" {
+					continue
 				}
-				walk(call.Block(), true)
-				if problem == "" {
-					// latched edge must return a non-nil error on every path
-					T := testBlk.Succs[trueIdx]
-					errSlot := errIndex(fn.Signature)
-					for bb := range reachableFrom(T, nil) {
-						if ret := blockReturn(bb); ret != nil {
-							if errSlot >= 0 && l.isErr && isLatchValue(retResults(ret)[errSlot], latchLoad, l.field, mi.X) {
-								continue // returns the latched error itself, non-nil on this edge
+				mc, ok := call.Call.Args[1].(*ssa.MakeClosure)
+				if !ok {
+					continue
+				}
+				cf, ok := mc.Fn.(*ssa.Function)
+				if !ok {
+					continue
+				}
+				// the captured variables the literal stores true / an error into
+				for fi, fv := range cf.FreeVars {
+					isLatch, isErr := false, false
+					nst := 0
+					for _, cb := range cf.Blocks {
+						for _, cin := range cb.Instrs {
+							st, ok := cin.(*ssa.Store)
+							if !ok || st.Addr != fv {
+								continue
 							}
-							if errSlot < 0 || !neverNilError(c, retResults(ret)[errSlot]) {
-								problem = "the latched edge reaches the return at " + c.pos(ret.Pos()) + " which does not carry a fresh error"
+							if bv, ok := constBool(st.Val); ok && bv {
+								isLatch = true
+							}
+							if isErrorType(st.Val.Type()) {
+								isLatch, isErr = true, true
 							}
 						}
 					}
-				}
-				if problem == "" {
-					r.ok(key, pos, fname(fn), "flag tested right after the sort; latched edge returns a fresh error; no return bypasses the test")
-				} else {
-					r.viol(key, pos, fname(fn), problem)
+					if !isLatch {
+						continue
+					}
+					for _, cb := range cf.Blocks {
+						for _, cin := range cb.Instrs {
+							st, ok := cin.(*ssa.Store)
+							if !ok || st.Addr != fv {
+								continue
+							}
+							nst++
+							r.Instances++
+							key := fmt.Sprintf("sticky|%s|store#%d", fname(cf), nst)
+							okStore := false
+							if bv, ok := constBool(st.Val); ok && bv {
+								okStore = true
+							}
+							if isErr && (neverNilError(c, st.Val) || nonNilAt(st.Val, cb)) {
+								okStore = true
+							}
+							if okStore {
+								r.ok(key, c.pos(st.Pos()), fname(cf), "the failure latch is only ever set here (never cleared by a later comparison)")
+							} else {
+								r.viol(key, c.pos(st.Pos()), fname(cf), "this store can clear the failure recorded by an earlier comparison (it writes a value that may be false/nil): a failed key evaluation or ill-typed key is forgotten when a later comparison succeeds")
+							}
+						}
+					}
+					r.Instances++
+					ord++
+					cell := mc.Bindings[fi]
+					key := fmt.Sprintf("%s|%s#%d", fname(fn), fv.Name(), ord)
+					afterSort(fn, call, key, c.pos(call.Pos()), isErr, "the comparison literal "+fname(cf)+" in "+fv.Name(), func(v ssa.Value) bool {
+						ld, ok := v.(*ssa.UnOp)
+						return ok && ld.Op == token.MUL && ld.X == cell
+					})
 				}
 			}
 		}
